@@ -19,7 +19,7 @@ func init() {
 	register(&Property{
 		Meta: report.Meta{
 			Property:    "C07",
-			Explanation: "Structural necessary conditions of a lossless seal/unseal: (R1) field bijection — from toIPLD the relation 'model field is fed from token field' and from tokenFromModel the relation 'token field is fed from model field' are extracted from the stores on every success path; they must be mutually inverse bijections over ALL fields of the Token struct and of the payload model, the model's fields must be the schema's fields, and optional/nullable schema fields must have nilable Go types; (R2) codec pairing — functions named *DagCbor* only reference dagcbor codec functions, *DagJson* only dagjson, sealed variants only DAG-CBOR; (R3) key-algorithm tables — multicodecs FromPubKey emits are accepted by Parse and have unmarshallers, key types have varsig headers; (R4) writer/reader bound agreement — every *time.Time field that toIPLD serialises is, in validate(), rejected beyond +/-(2^53-1) seconds exactly as parse.OptionalTimestamp rejects it on decode; (R5) validator symmetry — what the decoder validates (command grammar, policy integers, argument integers) validate() checks on construction too; (R6) the generic decoder dispatches to the typed decoders by their Tag constants. (R8) ordered containers: in packages args and meta, on every path a key is appended to X.Keys exactly when the path knows it to be absent from X.Values and stores a value under it (a key listed twice is sealed as a repeated map key that every decoder rejects). Equality of the round-tripped values themselves is a runtime-value clause and is not decided. validate may look at a *time.Time bound only through nil tests and Unix() (what the wire keeps); the Values map of an Args / Meta is made or cloned, never another container's map. The header written by envelope.ToIPLD is result #0 of a successful varsig.Encode(Type() of the signing key) on every sealing path, and the variable holding it is not written again.",
+			Explanation: "Structural necessary conditions of a lossless seal/unseal: (R1) field bijection — from toIPLD the relation 'model field is fed from token field' and from tokenFromModel the relation 'token field is fed from model field' are extracted from the stores on every success path; they must be mutually inverse bijections over ALL fields of the Token struct and of the payload model, the model's fields must be the schema's fields, and optional/nullable schema fields must have nilable Go types; (R2) codec pairing — functions named *DagCbor* only reference dagcbor codec functions, *DagJson* only dagjson, sealed variants only DAG-CBOR; (R3) key-algorithm tables — multicodecs FromPubKey emits are accepted by Parse and have unmarshallers, key types have varsig headers; (R4) writer/reader bound agreement — every *time.Time field that toIPLD serialises is, in validate(), rejected beyond +/-(2^53-1) seconds exactly as parse.OptionalTimestamp rejects it on decode; (R5) validator symmetry — what the decoder validates (command grammar, policy integers, argument integers) validate() checks on construction too; (R6) the generic decoder dispatches to the typed decoders by their Tag constants. (R8) ordered containers: in packages args and meta, on every path a key is appended to X.Keys exactly when the path knows it to be absent from X.Values and stores a value under it (a key listed twice is sealed as a repeated map key that every decoder rejects). Equality of the round-tripped values themselves is a runtime-value clause and is not decided. validate may look at a *time.Time bound only through nil tests and Unix() (what the wire keeps); the Values map of an Args / Meta is made or cloned, never another container's map. The header written by envelope.ToIPLD is result #0 of a successful varsig.Encode(Type() of the signing key) on every sealing path, and the variable holding it is not written again. (R5) every failing exit of policy.FromIPLD / statementFromIPLD / statementsFromIPLD is selected by a fact that mentions the node being decoded.",
 			Assumptions: []string{"go-ipld-prime codecs and bindnode are lossless for the bound types", "time.Unix / Time.Unix are inverse at whole-second resolution"},
 			Trusted:     []string{"go-ipld-prime (dagcbor, dagjson, bindnode)", "golang.org/x/tools/go/ssa v0.29.0"},
 			NotDecided:  []string{"equality of round-tripped field values (runtime values)", "non-finite floats in arguments (excluded by the statement)"},
@@ -33,7 +33,7 @@ func runC07(x *Ctx) {
 	x.C.Rule("C07.R2", "codec pairing by function name", 2)
 	x.C.Rule("C07.R3", "key-algorithm tables; the header sealed is the one the verifier expects", 4)
 	x.C.Rule("C07.R4", "constructors bound every serialised timestamp like the decoder; validate reads time bounds at wire resolution", 11)
-	x.C.Rule("C07.R5", "construct-side counterparts of decode-side validators", 5)
+	x.C.Rule("C07.R5", "construct-side counterparts of decode-side validators; the policy decoder refuses only for what the document holds", 8)
 	x.C.Rule("C07.R6", "generic decoder = typed decoders", 1)
 	x.C.Rule("C07.R7", "encoders return the codec's fresh output", 3)
 	x.C.Rule("C07.R8", "ordered containers (Args, Meta): a key is appended to the key list exactly when it is new in the map; ToIPLD assembles every key", 5)
@@ -131,6 +131,7 @@ func runC07(x *Ctx) {
 	timestampBounds(x)
 	validatorSymmetry(x)
 	decodeOnlyValidators(x)
+	documentDecides(x)
 	freshEncoderOutput(x)
 
 	// R6
@@ -575,6 +576,43 @@ func validatorSymmetry(x *Ctx) {
 			}
 		}
 		x.C.Obl("C07.R5", "args-validate-all", x.pos(f), "Args.Validate fails on the first value whose integers are out of bounds (range over all values)", ok, "")
+	}
+}
+
+// documentDecides: the policy decoder refuses a document only for what the document holds. Every failing exit of
+// FromIPLD / statementFromIPLD / statementsFromIPLD is selected by a test on the node being decoded (its kind, its
+// length, an operator, the failure of a nested decoder or parser given a piece of it). The constructors accept any
+// policy that encodes (validate() runs ToIPLD, not FromIPLD): a refusal decided by anything else - a nesting
+// counter carried in the diagnostic path, a package-level limit - refuses policies the library itself issued.
+func documentDecides(x *Ctx) {
+	for _, d := range []struct{ fn, node string }{{"pkg/policy.FromIPLD", "arg0"}, {"pkg/policy.statementFromIPLD", "arg1"}, {"pkg/policy.statementsFromIPLD", "arg1"}} {
+		f := x.fn("C07.R5", d.fn)
+		if f == nil {
+			continue
+		}
+		ps := x.paths("C07.R5", f)
+		if ps == nil {
+			continue
+		}
+		n, bad := 0, ""
+		for _, p := range ps {
+			if p.End != paths.EndReturn {
+				continue
+			}
+			if o, _ := p.ErrorOutcome(); o == paths.Success {
+				continue
+			}
+			n++
+			if len(p.Facts) == 0 {
+				bad += x.P.Pos(p.Ret.Pos()) + ": fails unconditionally\n"
+				continue
+			}
+			last := p.Facts[len(p.Facts)-1]
+			if !last.Atom.Contains(d.node) {
+				bad += fmt.Sprintf("%s: refuses on %s, which does not look at the document\n", x.P.Pos(p.Ret.Pos()), last)
+			}
+		}
+		x.C.Obl("C07.R5", "document-decides:"+d.fn, x.pos(f), fmt.Sprintf("each of the %d failing exits is selected by a test on the node being decoded", n), bad == "" && n > 0, firstLines(dedupLines(bad), 8))
 	}
 }
 
